@@ -20,7 +20,7 @@ RULE = ("Generated small circuits (2-5 modes, loss, heralds with photons via nes
         "deterministically (length, predicates, support), counts are checked by Pearson chi-square (cells with "
         "expectation < 10 pooled; for N inputs the rejected mass is one more cell) with violation only at "
         "p < 1e-9. Non-trivial = an imperfect detector stage or a herald/post-selection/min_detection that "
-        "rejects >= 5% of the mass, with N >= 2000; distinct = case JSON.")
+        "rejects >= 5% of the mass, with N >= 2000 (or more than a million samples over >= 50 outcomes); distinct = case JSON. Seeded calls are repeated in a second interpreter with another hash salt (vlib/peer.py).")
 ASSUMPTIONS = [
     "statistical clause decided at p-value < 1e-9 per comparison (chi-square approximation, pooled cells >= 10 expected)",
     "Sampler.sample() is documented as returning single outputs from the system and takes no heralding or "
@@ -233,7 +233,8 @@ def run_sampling(case):
         total = sum(res.values())
         if total > N:
             raise Violation(f"sample_N_inputs returned {total} samples for N={N}", key="n-inputs-count")
-        res2 = call("sample_N_inputs", fn, N, post_select=postsel.to_real(ps), min_detection=min_det, seed=seed)
+        res2 = res if case.get("once") else call("sample_N_inputs", fn, N, post_select=postsel.to_real(ps),
+                                                 min_detection=min_det, seed=seed)
         if dict(res) != dict(res2):
             raise Violation("sample_N_inputs: same seed gave different results", key="seed-not-reproducible")
         p_acc = sum(acc.values())
@@ -267,7 +268,8 @@ def run_sampling(case):
         total = sum(res.values())
         if total != N:
             raise Violation(f"sample_N_outputs returned {total} samples, not N={N}", key="n-outputs-count")
-        res2 = call("sample_N_outputs", fn, N, post_select=postsel.to_real(ps), min_detection=min_det, seed=seed)
+        res2 = res if case.get("once") else call("sample_N_outputs", fn, N, post_select=postsel.to_real(ps),
+                                                 min_detection=min_det, seed=seed)
         if dict(res) != dict(res2):
             raise Violation("sample_N_outputs: same seed gave different results", key="seed-not-reproducible")
         pval = None
@@ -349,7 +351,27 @@ def run_sampling(case):
         labels.add("rejects>=5%")
     if sum(hin.values()):
         labels.add("herald-photons")
-    return {"nontrivial": (imperfect or rejecting) and N >= 2000, "labels": sorted(labels)}
+    if N > 10 ** 6:
+        labels.add("more-than-a-million-samples")
+    return {"nontrivial": ((imperfect or rejecting) and N >= 2000) or (N > 10 ** 6 and pval is not None),
+            "labels": sorted(labels)}
+
+
+@st.composite
+def big_n_case(draw, quick):
+    """Millions of samples from a distribution with 100-200 outcomes of comparable weight: the chi-square statistic
+    has that many degrees of freedom, so counts that are more (or less) dispersed than independent draws - not only
+    shifted ones - show at the 1e-9 level."""
+    m = draw(st.sampled_from([6, 7]))
+    nph = draw(st.sampled_from([3, 4]))
+    prog = {"n": m, "ops": [["unitary", 0, "haar", m, draw(st.integers(0, 10 ** 6))]]}
+    occ = [1] * nph + [0] * (m - nph)
+    n = draw(st.sampled_from([2_000_000, 3_000_000] if quick else [1_000_001, 1_500_000, 2_000_000, 3_000_000,
+                                                                    4_000_000]))
+    return {"prog": prog, "input": list(draw(st.permutations(occ))),
+            "method": draw(st.sampled_from(["N_inputs", "N_outputs"])),
+            "det": {"eff": 1, "dark": 0, "pc": True, "mutate": False}, "ps": None, "min_det": 0, "N": n,
+            "seed": draw(st.integers(0, 2 ** 31 - 1)), "seed_type": "int", "once": True}
 
 
 # ------------------------------------------------------------ reproducibility across interpreter runs
@@ -421,6 +443,7 @@ def subs(tier):
             examples=12 if q else 300),
         Sub("QuickSampler.sample", run_sampling, strategy=sampling_case(method="qs_sample"),
             examples=12 if q else 300),
+        Sub("millions-of-samples", run_sampling, strategy=big_n_case(q), examples=1 if q else 12),
         Sub("seed-across-interpreters", run_peer, strategy=peer_case(), examples=5 if q else 400),
         Sub("QuickSampler.sample_N_outputs", run_sampling, strategy=sampling_case(method="qs_N_outputs"),
             examples=15 if q else 400),
